@@ -96,10 +96,11 @@ public:
 	m_value = v.index();
       } else if (m_kind == ExactlyOne || m_kind == ZeroOrMore ||
 		 m_kind == ZeroOrOne || m_kind == OneOrMore) {
-	if (!(m_kind == ExactlyOne && m_value.value() == v.index())) {
-	  m_kind = OneOrMore;
-	  m_value = boost::none;
-	}
+	// Even if v is the variable that was counted before: v is being
+	// re-assigned to a (possibly) different reference while the old one
+	// may still be reachable through an alias.
+	m_kind = OneOrMore;
+	m_value = boost::none;
       } else {
 	CRAB_ERROR("small_range::increment unreachable");
       }
